@@ -303,3 +303,29 @@ def family(prog, root_path):
             if fc:
                 inlined.add(fc)
     return [b for b in out if b.path not in inlined or b.path == root_path]
+
+
+LENIENT = r"str>?::(trim|trim_end|trim_start|trim_matches|trim_end_matches|trim_start_matches|trim_right|trim_left|split_whitespace|split_ascii_whitespace|lines|to_lowercase|to_uppercase|to_ascii_lowercase|to_ascii_uppercase)$|core::str::<impl str>::(trim|trim_end|trim_start|trim_matches|trim_end_matches|trim_start_matches|split_whitespace|split_ascii_whitespace|lines)$"
+
+
+def start_line_exact(chk, prog, rid, cfg=None):
+    """The three tokens of the request line are taken as they are: none of them passes through a trimming / whitespace-splitting call on its
+    way into the Request (`trim_end()` on the version accepts a bare LF, a trailing blank and a fourth token, which a request parser must
+    answer with 400)."""
+    n = 0
+    for p, b in sorted(prog.bodies.items()):
+        if not core.re.search(r"http::request::Request::from_stream(_inner)?(::\{closure#\d+\})*$", p):
+            continue
+        for bi, blk in enumerate(b.blocks):
+            for st in blk["stmts"]:
+                rv = st.get("rv")
+                if not (rv and rv.get("k") == "agg" and rv.get("adt", "").endswith("http::request::Request") and "version" in (rv.get("fields") or [])):
+                    continue
+                for f in ("method", "uri", "version"):
+                    d = describe(prog, b, rv["ops"][rv["fields"].index(f)])
+                    n += 1
+                    bad = [c[1] for c in core.desc_calls(d) if core.re.search(LENIENT, c[1])]
+                    chk.ob(rid, p, f"request line: the {f} token is taken exactly (no trimming / whitespace splitting)", not bad,
+                           f"the {f} passes through {core.short(bad[0]) if bad else ''}: a request line with a bare LF, a trailing blank or an extra token is accepted instead of answered 400",
+                           where=b.where(bi), cfg=cfg)
+    chk.floor(f"request-line tokens [{cfg or 'A'}]", n, 3)
